@@ -73,8 +73,12 @@ pub fn exec(case: &Value) -> Value {
     // tile that spans all of its columns (so that the inner view is as wide as its non-contiguous parent)
     let tile = atlas.slice((ox..ox + w, oy - 1..oy + h));
     let nested = Texture::from(tile.slice((.., 1..h + 1)));
+    // the same region requested through pairs of bounds whose START is excluded
+    use std::ops::Bound::{Excluded, Included};
+    let bsub = Texture::from(atlas.slice(((Excluded(ox - 1), Excluded(ox + w)), (Excluded(oy - 1), Included(oy + h - 1)))));
     for rel in [false, true] {
         let (cu, cv) = if rel { (u / w as f32, v / h as f32) } else { (u, v) };
+        sample_all(&mut out, &key, &bsub, w, h, 3, cu, cv, rel);
         sample_all(&mut out, &key, &owned, w, h, 0, cu, cv, rel);
         sample_all(&mut out, &key, &sub, w, h, 1, cu, cv, rel);
         sample_all(&mut out, &key, &nested, w, h, 2, cu, cv, rel);
